@@ -1,6 +1,7 @@
 """C12 — addresses map one-to-one to standard scripts, on the selected chain only."""
 import hashlib
 import itertools
+import random
 
 from ..framework import Prop, mk, guarded, ensure_repo_on_path, exc_family
 
@@ -103,13 +104,48 @@ class C12(Prop):
     # ------------------------------------------------------------------------------------------
     def generate(self, rng, tier, shard, nshards):
         big = tier == 'thorough'
+        # (1) structured part: one case list, identical in every shard, partitioned by a running index.  Everything
+        # that influences its order or length (random payloads included: the number of byte mutations and the length
+        # of an address text depend on them) comes from the shard-INDEPENDENT generator `crng`.
+        # (harness/tools/partition_selftest.py checks: union of the shards = the full enumeration, nothing twice.)
+        crng = random.Random('%s:%s:%s:common' % (getattr(self, 'seed', 0), self.id, tier))
         i = 0
-        for c in itertools.chain(self.gen_fresh(rng, big), self.gen_select(rng, big), self.gen_conv(rng, big), self.gen_scripts(rng, big),
-                                 self.gen_cross(rng, big), self.gen_segwit(rng, big), self.gen_b58(rng, big),
-                                 self.gen_strings(rng, big), self.gen_stale(rng, big)):
+        for c in itertools.chain(self.gen_fresh(crng, big), self.gen_select(crng, big), self.gen_conv(crng, big),
+                                 self.gen_scripts(crng, big), self.gen_cross(crng, big), self.gen_segwit(crng, big),
+                                 self.gen_b58(crng, big), self.gen_strings(crng, big), self.gen_stale(crng, big)):
             i += 1
             if i % nshards == shard:
                 yield c
+        # (2) bulk random part: generated independently by every shard from its own rng, no index partition
+        yield from self.gen_bulk(rng, big, nshards)
+
+    def gen_bulk(self, rng, big, nshards):
+        def share(n):
+            return max(1, n // nshards)
+        for _ in range(share(20000 if big else 400)):
+            yield mk('c12.select', self.hist(rng, rng.choice(CHAINS + BAD_NAMES)), tag='bulk-select')
+        flags = [('1', '1'), ('1', '0'), ('0', '1'), ('0', '0')]
+        for _ in range(share(48000 if big else 240)):
+            s = bytes(rng.randrange(256) for _ in range(rng.choice([1, 2, 22, 23, 25, 34, 35, 67])))
+            if rng.random() < 0.3:      # random body inside a matcher's frame
+                s = rng.choice([b'\x76\xa9\x14' + s[:20].ljust(20, b'\0') + b'\x88\xac', b'\xa9\x14' + s[:20].ljust(20, b'\1') + b'\x87',
+                                b'\x21' + s[:33].ljust(33, b'\2') + b'\xac', b'\x41' + s[:65].ljust(65, b'\3') + b'\xac',
+                                b'\x00\x14' + s[:20].ljust(20, b'\4'), b'\x00\x20' + s[:32].ljust(32, b'\5')])
+            chain = rng.choice(CHAINS)
+            yield mk('c12.fromspk', self.hist(rng, chain), s.hex(), tag='bulk-scripts')
+            nc, bare = rng.choice(flags)
+            yield mk('c12.p2pkh', chain, s.hex(), nc, bare, tag='bulk-scripts')
+        pool = B58 + B32 + '0OIl 1-_é€\t'
+        for _ in range(share(60000 if big else 600)):
+            n = rng.choice([0, 1, 2, 5, 14, 26, 34, 35, 42, 62, 90, 91, 120])
+            s = ''.join(rng.choice(pool) for _ in range(n))
+            if rng.random() < 0.5:
+                s = rng.choice(['bc1', 'tb1', 'bcrt1', 'BC1', '1', '3', 'm', '2']) + s
+            yield mk('c12.parse', rng.choice(CHAINS), tx(s), tag='bulk-random')
+        for _ in range(share(9600 if big else 160)):
+            t = rng.choice(TMPL)
+            p = bytes(rng.randrange(256) for _ in range(PLEN[t]))
+            yield mk('c12.conv', self.hist(rng, rng.choice(CHAINS)), t, p.hex(), tag='bulk-conv')
 
     def hist(self, rng, last=None):
         n = rng.randrange(0, 6)
@@ -155,13 +191,13 @@ class C12(Prop):
         for a in CHAINS:
             for b in CHAINS + BAD_NAMES[:2]:
                 yield mk('c12.select', a + ',' + b, tag='select')
-        for _ in range(20000 if big else 400):
+        for _ in range(200 if big else 60):       # a fixed sample of longer histories (the bulk is in gen_bulk)
             yield mk('c12.select', self.hist(rng, rng.choice(CHAINS + BAD_NAMES)), tag='select')
 
     def gen_conv(self, rng, big):
         for chain in CHAINS:
             for t in TMPL:
-                for p in self.payloads(rng, PLEN[t], 600 if big else 20):
+                for p in self.payloads(rng, PLEN[t], 40 if big else 8):
                     yield mk('c12.conv', self.hist(rng, chain), t, p.hex(), tag='conv')
                 # payloads of other lengths placed in the template (not standard: refused or re-read)
                 for n in (0, 1, 19, 20, 21, 31, 32, 33, 40, 75):
@@ -199,12 +235,10 @@ class C12(Prop):
                 for x in (0x00, 0x14, 0x87, 0xac, 0x4c):
                     scripts += [s + bytes([x]), bytes([x]) + s]
                 for pos in range(len(s)):
-                    for x in {s[pos] ^ 1, s[pos] ^ 0x80, (s[pos] + 1) & 0xff, 0x00, 0x4c, 0x14, 0x20}:
+                    for x in sorted({s[pos] ^ 1, s[pos] ^ 0x80, (s[pos] + 1) & 0xff, 0x00, 0x4c, 0x14, 0x20}):
                         if x != s[pos]:
                             scripts.append(s[:pos] + bytes([x]) + s[pos + 1:])
             scripts += [b'', b'\x00', b'\x4c', b'\x4d\x01', b'\x4e\x01\x00\x00', b'\x6a', b'\x6a\x14' + h20]
-            scripts += [bytes(rng.randrange(256) for _ in range(rng.choice([1, 2, 22, 23, 25, 34, 35, 67])))
-                        for _ in range(2000 if big else 60)]
             for s in scripts:
                 yield mk('c12.fromspk', self.hist(rng, chain), s.hex(), tag='scripts')
                 for nc, bare in flags:
@@ -285,13 +319,6 @@ class C12(Prop):
                     muts.append(s[:pos] + 'é' + s[pos:])
                 for m in muts:
                     yield mk('c12.parse', chain, tx(m), tag='mutated')
-        pool = B58 + B32 + '0OIl 1-_é€\t'
-        for _ in range(60000 if big else 600):
-            n = rng.choice([0, 1, 2, 5, 14, 26, 34, 35, 42, 62, 90, 91, 120])
-            s = ''.join(rng.choice(pool) for _ in range(n))
-            if rng.random() < 0.5:
-                s = rng.choice(['bc1', 'tb1', 'bcrt1', 'BC1', '1', '3', 'm', '2']) + s
-            yield mk('c12.parse', rng.choice(CHAINS), tx(s), tag='random')
 
     def gen_stale(self, rng, big):
         for a in CHAINS:
